@@ -12,7 +12,7 @@
    i.e. the future is ready.  In the model every submission to the pool succeeds (enqueue_task returns 0, pinned
    by c07_refused_submission_invalid_future); refusing executors are covered by monitors only. *)
 From Coq Require Import ZArith List Bool.
-Require Import Verif.Gen.Gen_executor Verif.Conc.Machine Verif.EX.EXModel Verif.EX.EXProofs.
+Require Import Verif.Gen.Gen_executor Verif.Conc.Machine Verif.EX.EXModel Verif.EX.EXProofs Verif.EX.EXSmallModel Verif.EX.EXSmallProofs.
 Import ListNotations.
 
 (* usage rules: at least one worker; every task id is written at one place only (one submit in one program, or
@@ -41,6 +41,16 @@ Print Assumptions c07_only_accepted_tasks_start.
 Theorem c07_runs_inside_runner_scope : forall c progs s id w, Reach c progs s -> In (id, w) (started s) -> w < nworkers c.
 Proof. exact ex_started_on_worker. Qed.
 Print Assumptions c07_runs_inside_runner_scope.
+
+(* a submission that reported failure (non-zero from submit(), invalid future from execute(): the regenerated
+   failure test applied to enqueue_task's regenerated results) never starts; in the pool no submission is refused *)
+Theorem c07_failed_never_runs : forall c progs s id, Reach c progs s -> In id (refused s) -> ~ In id (map fst (started s)).
+Proof. exact ex_failed_never_runs. Qed.
+Print Assumptions c07_failed_never_runs.
+
+Theorem c07_pool_never_refuses : forall c progs s, Reach c progs s -> refused s = [].
+Proof. exact ex_none_refused. Qed.
+Print Assumptions c07_pool_never_refuses.
 
 (* ---- stop() drains -------------------------------------------------------------------------------------------- *)
 (* when stop() has returned, every task whose submission returned before stop() was called (acc_before) and every
@@ -119,6 +129,15 @@ Theorem c07_marker_is_what_workers_exit_on :
 Proof. exact (conj gen_stop_is_exit (conj gen_wake_not_exit (conj gen_fun_is_run gen_run_not_exit))). Qed.
 Print Assumptions c07_marker_is_what_workers_exit_on.
 
+(* statement order in stop(), regenerated: _running cleared, then the balance thread joined, then the marker loop,
+   then the worker joins.  The model follows stop_joins_balancer_first (EStopJoinBal / EStopJoinBalLate), and
+   c07_stop_drains, c07_markers_after_balancer and the no-STOP-while-balancing invariant rest on this fact. *)
+Theorem c07_stop_statement_order :
+  (stop_joins_balancer_first =? 1)%Z = true /\ stop_clears_running_first = 1%Z /\
+  stop_markers_before_worker_join = 1%Z /\ stop_worker_wait = 1%Z.
+Proof. exact (conj gen_join_first gen_stop_order). Qed.
+Print Assumptions c07_stop_statement_order.
+
 Theorem c07_one_marker_per_worker : (forall i n, stop_push_more i n = (i <? n)%Z) /\ stop_first_marker = 0%Z.
 Proof. exact (conj gen_push_more gen_first_marker). Qed.
 Print Assumptions c07_one_marker_per_worker.
@@ -144,6 +163,45 @@ Theorem c07_memory_order_obligations : orders_ok = true.
 Proof. exact ex_orders_ok. Qed.
 Print Assumptions c07_memory_order_obligations.
 
+(* ---- InplaceExecutor (EXSmallModel.inplace_invoke) ---------------------------------------------------------- *)
+(* invoke runs the task and, re-entrantly, everything it submits to the same executor, inside the caller: at return
+   each of them has run exactly once (log = pre-order of the task tree), each inside a RunnerScope of this executor
+   (is_running_in() true), every invoke returned 0 (valid, ready future), and the caller's scope is restored -
+   whatever scope the caller was in (none, another executor, or this one) *)
+Theorem c07_inplace : forall t me s,
+  icur (inplace_invoke me t s) = icur s /\
+  ilog (inplace_invoke me t s) = ilog s ++ in_scope_log (preorder t) /\
+  irets (inplace_invoke me t s) = irets s ++ ok_rets (postorder t).
+Proof. exact inplace_spec. Qed.
+Print Assumptions c07_inplace.
+
+Theorem c07_inplace_each_submission_runs_once : forall t me s id,
+  count_occ Nat.eq_dec (map fst (ilog (inplace_invoke me t s))) id =
+  count_occ Nat.eq_dec (map fst (ilog s)) id + count_occ Nat.eq_dec (preorder t) id.
+Proof. exact inplace_runs_each_once. Qed.
+Print Assumptions c07_inplace_each_submission_runs_once.
+
+(* ---- AlwaysUseNewThreadExecutor (EXSmallModel.nstep), all client programs, task graphs and schedules ------- *)
+Theorem c07_newthread_one_thread_per_task : forall bodies progs s, NReach bodies progs s ->
+  NoDup (map (fun e => snd (fst e)) (nstarted s)) /\
+  forall id t sc, In (id, t, sc) (nstarted s) -> sc = true /\ length progs <= t.
+Proof. exact ex_newthread_one_thread_each. Qed.
+Print Assumptions c07_newthread_one_thread_per_task.
+
+(* join()/destructor: it returns only on reading _running = 0, and then every task accepted so far - including
+   everything those tasks spawned - has finished *)
+Theorem c07_newthread_join_drains : forall bodies progs s, NReach bodies progs s ->
+  njoin_ok s = true /\ (nrunning s = 0%Z -> forall id, In id (ncounted s) -> In id (nfinished s)).
+Proof. exact (fun b p s Hr => conj (ex_newthread_join_ok b p s Hr) (ex_newthread_idle_means_done b p s Hr)). Qed.
+Print Assumptions c07_newthread_join_drains.
+
+Theorem c07_small_executor_statement_order :
+  ((inplace_scope_first =? 1)%Z = true /\ inplace_result = 0%Z) /\
+  ((newthread_counts_before_spawn =? 1)%Z = true /\ (newthread_scope_first =? 1)%Z = true /\
+   newthread_uncounts_after_run = 1%Z /\ newthread_result = 0%Z /\ (forall r, newthread_join_waits r = negb (r =? 0)%Z)).
+Proof. exact (conj gen_inplace gen_newthread). Qed.
+Print Assumptions c07_small_executor_statement_order.
+
 (* ---- non-vacuity: a reachable state in which stop() has returned, a task spawned into a local queue after
    stop() was called has run, and both full statements hold ------------------------------------------------ *)
 Example c07_demo_reachable : Reach demo_cfg demo_progs (run st (step demo_cfg) (init demo_cfg demo_progs) demo_sched).
@@ -153,3 +211,10 @@ Example c07_demo_drained : let s := run st (step demo_cfg) (init demo_cfg demo_p
 Proof. exact ex_demo. Qed.
 Example c07_demo_wf : wf demo_cfg demo_progs.
 Proof. exact ex_demo_wf. Qed.
+Example c07_newthread_demo : let s := run nst (nstep ndemo_bodies) (ninit ndemo_progs) ndemo_sched in
+  NReach ndemo_bodies ndemo_progs s /\ nrunning s = 0%Z /\ nfinished s = [1; 0] /\ ncounted s = [1; 0] /\
+  nstarted s = [(0, 1, true); (1, 2, true)] /\ map nopi (nthreads s) = [2; 0; 0].
+Proof. exact ex_ndemo. Qed.
+Example c07_inplace_demo : inplace_invoke 7 (Task 0 [Task 1 [Task 3 []]; Task 2 []]) {| icur := Some 9; ilog := []; irets := [] |} =
+  {| icur := Some 9; ilog := [(0, true); (1, true); (3, true); (2, true)]; irets := [(3, 0%Z); (1, 0%Z); (2, 0%Z); (0, 0%Z)] |}.
+Proof. exact ex_idemo. Qed.
